@@ -532,6 +532,185 @@ Proof.
     + rewrite (bind_other _ _ _ _ B21 x Np), (bind_other _ _ _ _ B2 x Ni), (bind_other _ _ _ _ Bp x Np). reflexivity.
 Qed.
 
+(* ---- a total arithmetic instruction may also move in FRONT of an invoke, provided its operands are known to be defined
+        (outputs of instructions of the block that have already been executed): it cannot fail, so running it before a
+        call that may halt changes nothing *)
+Definition defined (D : list positive) (vs : vmap) : Prop := forall x, In x D -> PositiveMap.find x vs <> None.
+
+Definition arith_total (o : opc) (n : nat) : bool :=
+  match o with
+  | O_add | O_sub | O_mul | O_div | O_sdiv | O_mod | O_smod | O_exp | O_lt | O_gt | O_slt | O_sgt | O_eq | O_and | O_or | O_xor
+  | O_byte | O_shl | O_shr | O_sar | O_signextend => Nat.eqb n 2
+  | O_addmod | O_mulmod => Nat.eqb n 3
+  | O_iszero | O_not | O_assign => Nat.eqb n 1
+  | _ => false
+  end.
+
+Definition safe_arith (D : list positive) (i : inst) : bool :=
+  arith_total (i_op i) (length (i_args i))
+  && match i_outs i with [_] => true | _ => false end
+  && forallb (fun o => match o with OLit _ => true | OVar v => memp v D | OLab _ => false end) (i_args i).
+
+Lemma memp_true_In : forall v l, memp v l = true -> In v l.
+Proof. intros v l H. unfold memp in H. apply existsb_exists in H. destruct H as [x [I E]]. apply Pos.eqb_eq in E. subst. assumption. Qed.
+
+Lemma eval_ops_defined : forall D vs l, defined D vs ->
+  forallb (fun o => match o with OLit _ => true | OVar v => memp v D | OLab _ => false end) l = true ->
+  exists vals, eval_ops vs l = Some vals /\ length vals = length l.
+Proof.
+  intros D vs. induction l as [|o t IH]; intros DF H; simpl in *.
+  - exists []. auto.
+  - apply andb_true_iff in H. destruct H as [Ho Ht]. destruct (IH DF Ht) as [vals [EV LE]]. rewrite EV.
+    destruct o as [z|v|l0]; simpl; try discriminate Ho.
+    + exists (z :: vals). simpl. auto.
+    + destruct (PositiveMap.find v vs) as [x|] eqn:F.
+      * exists (x :: vals). simpl. auto.
+      * exfalso. apply (DF v (memp_true_In _ _ Ho)). assumption.
+Qed.
+
+Lemma arith_total_some : forall o a, arith_total o (length a) = true -> exists v, arith o a = Some v.
+Proof.
+  intros o a H. unfold arith. destruct o; try discriminate H; simpl in H;
+    destruct a as [|x [|y [|z [|w t]]]]; try discriminate H; simpl; eauto.
+Qed.
+
+Lemma wrapped_arith_total : forall E X o a st, arith_total o (length a) = true ->
+  exists v, wrapped E X o a st = Ok ([v], st).
+Proof.
+  intros E X o a st H. destruct (arith_total_some o a H) as [v AV]. exists v. unfold wrapped.
+  assert (F : sem_reads o ++ sem_writes o = [] /\ sem_writes o = []) by (destruct o; try discriminate H; split; reflexivity).
+  destruct F as [F1 F2]. rewrite F1, F2.
+  assert (S : forall s, eff_sem E X o a s = match arith o a with Some v => Ok ([v], s) | None => Err EArity end).
+  { intros s. destruct o; try discriminate H; reflexivity. }
+  rewrite S, AV, merge_nil. reflexivity.
+Qed.
+
+Lemma arith_total_simple : forall o n, arith_total o n = true -> is_simple o = true /\ FP o = [].
+Proof. intros o n H. destruct o; try discriminate H; split; reflexivity. Qed.
+
+Lemma safe_exec : forall E X K D i vs, safe_arith D i = true -> defined D vs ->
+  exists o vals v, i_outs i = [o] /\ eval_ops vs (i_args i) = Some vals /\ arith (i_op i) vals = Some v /\
+    forall st, cexec_inst E X K i vs st = CNext (PositiveMap.add o v vs) st.
+Proof.
+  intros E X K D i vs S DF. unfold safe_arith in S. apply andb_true_iff in S. destruct S as [S OPS].
+  apply andb_true_iff in S. destruct S as [AT OUT].
+  destruct (i_outs i) as [|o [|o2 t]] eqn:EO; try discriminate OUT.
+  destruct (eval_ops_defined D vs (i_args i) DF OPS) as [vals [EV LE]].
+  rewrite <- LE in AT. destruct (arith_total_some (i_op i) vals AT) as [v AV].
+  exists o, vals, v. repeat split; auto. intros st.
+  destruct (wrapped_arith_total E X (i_op i) vals st AT) as [v2 W].
+  assert (v2 = v).
+  { unfold wrapped in W. destruct (arith_total_simple _ _ AT) as [_ FPn]. fold (FP (i_op i)) in W. rewrite FPn in W.
+    assert (SW : sem_writes (i_op i) = []). { unfold FP in FPn. destruct (app_nil_both _ _ FPn). assumption. }
+    rewrite SW in W.
+    assert (Sx : forall s, eff_sem E X (i_op i) vals s = match arith (i_op i) vals with Some v => Ok ([v], s) | None => Err EArity end).
+    { intros s0. destruct (i_op i); try discriminate AT; reflexivity. }
+    rewrite Sx, AV in W. inversion W. reflexivity. }
+  subst v2. destruct (arith_total_simple _ _ AT) as [SI _].
+  rewrite (cexec_noncall E X K i vs st (simple_not_call _ SI)), (exec_inst_is_simple E X i vs st SI).
+  unfold exec_simple. rewrite EV, W, EO. reflexivity.
+Qed.
+
+Lemma defined_add : forall D vs o v, defined D vs -> defined (o :: D) (PositiveMap.add o v vs).
+Proof.
+  intros D vs o v DF x I. destruct (Pos.eq_dec x o) as [->|N].
+  - rewrite PositiveMap.gss. discriminate.
+  - rewrite PositiveMap.gso by assumption. destruct I as [EQ|I]; [congruence|]. apply DF. assumption.
+Qed.
+
+Lemma bind_defined : forall outs vals vs vs' D, bind_outs vs outs vals = Some vs' -> defined D vs -> defined (outs ++ D) vs'.
+Proof.
+  induction outs as [|o t IH]; intros vals vs vs' D B DF; destruct vals as [|v r]; simpl in B; try discriminate.
+  - inversion B. subst. assumption.
+  - intros x I. simpl in I.
+    assert (DD : defined (t ++ (o :: D)) vs') by (eapply IH; eauto; apply defined_add; assumption).
+    apply DD. destruct I as [<-|I]; apply in_or_app.
+    + right. left. reflexivity.
+    + apply in_app_or in I. destruct I as [I|I]; [left; assumption|right; right; assumption].
+Qed.
+
+Lemma exec_inst_next_kinds : forall E X i vs st vs' st', exec_inst E X i vs st = SNext vs' st' ->
+  is_simple (i_op i) = true \/ (is_guard (i_op i) = true /\ vs' = vs).
+Proof.
+  intros E X i vs st vs' st' H.
+  destruct (is_simple (i_op i)) eqn:S; [left; reflexivity|right].
+  destruct (is_guard (i_op i)) eqn:G.
+  - split; auto. pose proof (guard_cases E X i vs st G) as GC. destruct (i_args i) as [|c [|c2 t]]; rewrite GC in H; try discriminate.
+    destruct (eval_op vs c) as [v|]; [|discriminate]. destruct (v <? 0); [discriminate|]. destruct (v =? 0); [discriminate|].
+    inversion H. reflexivity.
+  - exfalso. destruct i as [outs op args]. unfold exec_inst in H. simpl in *.
+    destruct op; try discriminate S; try discriminate G; try discriminate H.
+    + destruct args as [|[z|v|l0] [|o2 t]]; discriminate H.
+    + destruct args as [|c [|[z|v|t] [|[z2|v2|e] [|o4 r]]]]; try discriminate H.
+      destruct (eval_op vs c) as [v|]; [|discriminate H]. destruct (v <? 0); discriminate H.
+    + destruct args as [|t labs]; try discriminate H. destruct (eval_op vs t) as [v|]; [|discriminate H].
+      destruct (find (fun o => match o with OLab l1 => label_addr l1 =? v | _ => false end) labs) as [[z|y|l0]|]; discriminate H.
+    + destruct (eval_ops vs args) as [[|p [|n [|y t]]]|]; try discriminate H. unfold halt_data in H. destruct (okaddr p n); discriminate H.
+    + destruct (eval_ops vs args) as [[|p [|n [|y t]]]|]; try discriminate H. unfold halt_data in H. destruct (okaddr p n); discriminate H.
+Qed.
+
+Definition step_D (i : inst) (D : list positive) : list positive := if is_guard (i_op i) then D else i_outs i ++ D.
+
+(* after any instruction that continues, its outputs are defined and what was defined stays defined *)
+Lemma cexec_next_defined : forall E X K i vs st vs' st' D, cexec_inst E X K i vs st = CNext vs' st' -> defined D vs ->
+  defined (step_D i D) vs'.
+Proof.
+  intros E X K i vs st vs' st' D H DF. unfold cexec_inst in H. unfold step_D.
+  destruct (is_invoke (i_op i)) eqn:IV.
+  - assert (G : is_guard (i_op i) = false) by (destruct (i_op i); try discriminate IV; reflexivity). rewrite G.
+    destruct (i_args i) as [|[z|v|g] rest]; try discriminate H. destruct (eval_ops vs rest) as [vals|]; [|discriminate H].
+    destruct (K g vals st) as [[h|rv] s2]; [discriminate H|].
+    destruct (bind_outs vs (i_outs i) rv) as [v2|] eqn:B; [|discriminate H]. inversion H. subst. eapply bind_defined; eauto.
+  - destruct (is_ret (i_op i)).
+    + destruct (eval_ops vs (but_last (i_args i))); discriminate H.
+    + destruct (exec_inst E X i vs st) as [v s|l v s|h s] eqn:EI; simpl in H; try discriminate H. inversion H. subst.
+      destruct (exec_inst_next_kinds E X i vs st vs' st' EI) as [S|[G ->]].
+      * assert (G : is_guard (i_op i) = false) by (destruct (i_op i); try discriminate S; reflexivity). rewrite G.
+        rewrite (exec_inst_is_simple E X i vs st S) in EI. unfold exec_simple in EI.
+        destruct (eval_ops vs (i_args i)); [|discriminate]. destruct (wrapped E X (i_op i) l st) as [[ov s2]|]; [|discriminate].
+        destruct (bind_outs vs (i_outs i) ov) as [v2|] eqn:B; [|discriminate]. inversion EI. subst. eapply bind_defined; eauto.
+      * rewrite G. assumption.
+Qed.
+
+Lemma defined_weaken : forall D D' vs, defined D' vs -> (forall x, In x D -> In x D') -> defined D vs.
+Proof. intros D D' vs H S x I. apply H. apply S. assumption. Qed.
+
+Lemma step_D_incl : forall i D x, In x D -> In x (step_D i D).
+Proof. intros i D x I. unfold step_D. destruct (is_guard (i_op i)); auto. apply in_or_app. right. assumption. Qed.
+
+Lemma cswap_invoke_early : forall E X K D p i R vs st, is_invoke (i_op p) = true -> safe_arith D i = true ->
+  defined D vs -> indepb p i = true ->
+  cle (cexec_insts E X K (p :: i :: R) vs st) (cexec_insts E X K (i :: p :: R) vs st).
+Proof.
+  intros E X K D p i R vs st Iv SA DF ID. destruct (indepb_spec _ _ ID) as [I12 [I21 IO]]. simpl.
+  destruct (safe_exec E X K D i vs SA DF) as [o [vals_i [v [EO [EVi [AVi Qi]]]]]]. rewrite (Qi st).
+  destruct (i_args p) as [|[z|w|g] rest] eqn:EAp;
+    try (left; unfold cexec_inst; rewrite Iv, EAp; exact I).
+  rewrite (cexec_invoke_eq E X K p vs st g rest Iv EAp), (cexec_invoke_eq E X K p (PositiveMap.add o v vs) st g rest Iv EAp).
+  assert (ER : eval_ops (PositiveMap.add o v vs) rest = eval_ops vs rest).
+  { apply eval_ops_indep. intros x Hx. apply PositiveMap.gso. intro; subst x.
+    apply (I21 o). - rewrite EO. left. reflexivity. - unfold op_vars in *. simpl. assumption. }
+  rewrite ER. destruct (eval_ops vs rest) as [vals|]; [|left; exact I].
+  destruct (K g vals st) as [[h|rv] s2] eqn:EK.
+  { apply cle_refl. }
+  destruct (bind_outs vs (i_outs p) rv) as [vsp|] eqn:Bp; [|left; exact I].
+  destruct (bind_status_some _ _ vs (PositiveMap.add o v vs) _ Bp) as [vsip Bip]. rewrite Bip.
+  assert (DFp : defined D vsp).
+  { eapply defined_weaken. - eapply bind_defined; eauto. - intros x Hx. apply in_or_app. right. assumption. }
+  destruct (safe_exec E X K D i vsp SA DFp) as [o' [vals' [v' [EO' [EVi' [AVi' Qi']]]]]].
+  rewrite EO in EO'. inversion EO'. subst o'. rewrite (Qi' s2).
+  assert (VV : v' = v).
+  { rewrite (args_after_bind vs (i_outs p) rv vsp (i_args i) Bp I12) in EVi'. rewrite EVi in EVi'. inversion EVi'. subst vals'.
+    rewrite AVi in AVi'. inversion AVi'. reflexivity. }
+  subst v'. apply cexec_insts_veq. intros x _.
+  destruct (in_dec Pos.eq_dec x (i_outs p)) as [Xp|Np].
+  - assert (NO : x <> o). { intro; subst x. apply (IO o Xp). rewrite EO. left. reflexivity. }
+    rewrite (bind_same _ _ _ _ _ _ Bip Bp x Xp). rewrite PositiveMap.gso by assumption. reflexivity.
+  - rewrite (bind_other _ _ _ _ Bip x Np). destruct (Pos.eq_dec x o) as [->|NO].
+    + rewrite !PositiveMap.gss. reflexivity.
+    + rewrite !PositiveMap.gso by assumption. symmetry. apply (bind_other _ _ _ _ Bp x Np).
+Qed.
+
 Lemma cswap_ok : forall E X K p i R vs st, ccross_ok p i = true ->
   cle (cexec_insts E X K (p :: i :: R) vs st) (cexec_insts E X K (i :: p :: R) vs st).
 Proof.
